@@ -372,7 +372,8 @@ func TestVF_C28_Metadata(t *testing.T) {
 		leaked := false
 		for _, tp := range resp.Topics {
 			for _, pt := range tp.Partitions {
-				if pt.Leader != 0 || !c28OnlyProxy(pt.Replicas) || !c28OnlyProxy(pt.ISR) || !c28OnlyProxy(pt.OfflineReplicas) {
+				// leader -1 names nobody (leaderless partition); anything else must be the proxy
+				if !(pt.Leader == 0 || pt.Leader == -1) || !c28OnlyProxy(pt.Replicas) || !c28OnlyProxy(pt.ISR) || !c28OnlyProxy(pt.OfflineReplicas) {
 					if tp.ErrorCode != 0 && outOfDomainTopicErr {
 						leaked = true
 						continue
